@@ -311,13 +311,16 @@ def obligations(tier, seed):
         # additionally with every set permuted at once
         for kinds in KINDS:
             ob = OrderOb(name, stmts, d, meta, 2, region, kinds=kinds, fixed=FIXED.get(name, ()))
-            ob.seeds = 16 if tier == "quick" else 64
+            ob.seeds = 16 if tier == "quick" else 32
+            if tier == "thorough":
+                ob.validate_every = 8     # every 8th passing path is replayed under 32 hash seeds (each replay = 32 real runs)
             obs.append(ob)
         if name in ("derived", "update_from", "merge", "drop_after_write", "self_join", "cte") or tier == "thorough":
             ob = OrderOb(name, stmts, d, meta, 2, region, kinds=None, fixed=FIXED.get(name, ()))
-            ob.seeds = 16 if tier == "quick" else 64
+            ob.seeds = 16 if tier == "quick" else 32
             if tier == "thorough":
                 ob.budget_s = 1500
+                ob.validate_every = 8
             obs.append(ob)
     for name in ("qualified_join", "unqualified_join", "chain2", "cte"):
         obs.append(AccessorOb(name, TEMPLATES[name][0]))
